@@ -136,9 +136,13 @@ class C14(Check):
         # these algorithms document (and warn) that the last mode cannot be fixed; only parafac special-cases "every mode fixed"
         last_unsupported = algo in ("parafac", "non_negative_parafac", "constrained_parafac", "non_negative_tucker_hals")
         all_fixed = sorted(fixed) == list(range(n))
+        eff_fixed, all_fixed_eff = list(fixed), all_fixed
         if last_unsupported and (n - 1) in fixed and not (all_fixed and algo == "parafac"):
-            ctx.count("guarded_out:fixing-last-mode-unsupported")
-            return
+            # documented (warning): the last mode is not fixed - every OTHER listed mode still is
+            ctx.count("last-mode-listed-but-documented-as-not-fixable:other-listed-modes-still-demanded")
+            eff_fixed, all_fixed_eff = [m for m in fixed if m != n - 1], False
+            if case["weights"] not in ("none", "ones"):
+                return  # (the weights are absorbed into the last factor; covered by the other weight classes)
 
         # ---------------- build the initialisation
         if algo in ("tucker", "non_negative_tucker_hals"):
@@ -361,10 +365,10 @@ class C14(Check):
                 ctx.violation(f"{tag}/second-warm-start-from-the-same-init-object-differs/weights-{wclass}",
                               f"{case}: two consecutive one-sweep runs given the very same init object differ by {np.abs(outs[0] - outs[1]).max() if outs[0].shape == outs[1].shape else 'shape'}")
         # ---- fixed modes
-        if fixed:
+        if eff_fixed:
             for k, (kind, r, init) in enumerate(chains[0]):
                 facs_out = r[1]
-                if all_fixed:
+                if all_fixed_eff:
                     d = dense_of(kind, r)
                     if np.abs(d - init_dense).max() > 1e-12 * scale * 10:
                         ctx.violation(f"{tag}/all-modes-fixed-result-differs-from-init", f"{case}: n_iter_max={k}: all modes fixed but the tensor changed")
@@ -375,7 +379,7 @@ class C14(Check):
                                 ctx.violation(f"{tag}/all-modes-fixed-factor-not-bit-identical", f"{case}: n_iter_max={k}: factor {m} changed although every mode is fixed")
                                 break
                     continue
-                for m in fixed:
+                for m in eff_fixed:
                     if m == 1 and algo == "parafac2":
                         continue
                     a, b = np.asarray(facs_out[m]), np.asarray(supplied[m])
